@@ -491,6 +491,8 @@ def _gen_voi(rng, world, K=None):
         elif r < 0.45:
             dv['ref'] = rng.choice([2.0, 10.0, 0.5])
             dv['ref0'] = rng.choice([0.0, 1.0, -1.0])
+        if K and rng.random() < K.get('voi_units', 0.0) and v['units'] is not None:
+            dv['units'] = compatible(v['units'], rng)
         dvs.append(dv)
     resps = []
     for o in chosen_r:
@@ -507,6 +509,8 @@ def _gen_voi(rng, world, K=None):
         elif rr < 0.45:
             r['ref'] = rng.choice([2.0, 10.0, 0.5])
             r['ref0'] = rng.choice([0.0, 1.0, -1.0])
+        if K and rng.random() < K.get('voi_units', 0.0) and o['units'] is not None:
+            r['units'] = compatible(o['units'], rng)
         resps.append(r)
     return dvs, resps
 
